@@ -91,6 +91,12 @@ def r2(ctx, rep):
                   f"{name} must return the tokens only on success and only the errors on failure; found {rows}", file=f["file"], line=f["l"], fn=f["path"])
         r0 = [s for s in f["body"]["s"] if s.get("k") == "local" and show(s["pat"]) == "result"]
         rep.check(bool(r0) and show(r0[0]["init"]) == "lexer().parse(source).into_result()", f"whole-input:{name}", "the lexer must be run over the whole source with into_result() (errors => no output)", file=f["file"], line=f["l"], fn=f["path"])
+        # `source` must be the caller's string itself: spans are offsets into it
+        params = [show(p.get("pat", p)) if isinstance(p, dict) else str(p) for p in f.get("params", [])]
+        shadow = [show(n["pat"]) for n in walk(f["body"]) if n.get("k") == "local" and show(n["pat"]).replace("mut ", "") == "source"]
+        rep.check(not shadow and any(p.split(":")[0].strip() == "source" for p in params), f"same-string:{name}",
+                  f"{name} lexes a string derived from its argument (`let source = ..`): token spans then index the derived string, not the source the caller holds "
+                  "(a stripped prefix shifts every span)", file=f["file"], line=f["l"], fn=f["path"])
     ce = syn.fn("lexer::convert_lexer_error", crate="prqlc_parser")
     rep.check("Reason::Unexpected" in show_stmts(ce["body"], maxdepth=10) or any(n.get("k") == "struct" and n["p"].endswith("Reason::Unexpected") for n in walk(ce["body"])), "error-has-reason", "every lexer error must carry a reason", file=ce["file"], line=ce["l"], fn=ce["path"])
 
@@ -128,6 +134,42 @@ def r4(ctx, rep):
     alts = show(t["r"], maxdepth=10) if ok else ""
     rep.check(ok, "rewind", "end_expr must be a pure look-ahead (.rewind())", file=f["file"], line=f["l"], fn=f["path"])
     rep.check("end()" in alts, "accepts-end", f"end_expr must accept end of input (a keyword or literal at the very end of its own slice must still lex); alternatives: {alts}", file=f["file"], line=f["l"], fn=f["path"])
+    # every character that starts a newline token ends an expression
+    nl = syn.fn("lexer::newline", crate="prqlc_parser")
+    nl_first = set()
+    for n in walk(nl["body"]):
+        if n.get("k") == "call" and last_seg(show(n["f"])) == "just" and n["a"] and isinstance(lit_val(n["a"][0]), str):
+            nl_first.add(lit_val(n["a"][0])[:1])
+    # only the heads of the or-chain count: `just('\r').then_ignore(just('\n').or_not())` contributes '\r'; '\n' is also a head
+    accepted = set()
+    if ok:
+        for n in walk(t["r"]):
+            if n.get("k") == "call":
+                cn = last_seg(show(n["f"]))
+                if cn == "one_of" and n["a"] and isinstance(lit_val(n["a"][0]), str):
+                    accepted |= set(lit_val(n["a"][0]))
+                if cn == "just" and n["a"] and isinstance(lit_val(n["a"][0]), str):
+                    accepted.add(lit_val(n["a"][0])[:1])
+                if cn == "newline":
+                    accepted |= nl_first
+    missing = sorted(nl_first - accepted)
+    rep.check(bool(nl_first) and not missing, "accepts-newline", f"end_expr does not accept {missing!r}, which start(s) a newline token: a keyword or `true`/`false`/`null` at the end of such a line lexes as an identifier "
+              "(CR / CRLF line endings)", file=f["file"], line=f["l"], fn=f["path"])
+    # every character that can start the NEXT token without being part of a word must end the look-ahead, otherwise the word
+    # is lexed as an identifier there but as a keyword / literal in isolation
+    tk = syn.fn("lexer::token", crate="prqlc_parser")
+    starts = set()
+    for n in walk(tk["body"]):
+        if n.get("k") == "call" and last_seg(show(n["f"])) == "one_of" and n["a"] and isinstance(lit_val(n["a"][0]), str):
+            starts |= set(lit_val(n["a"][0]))
+    mo = syn.fn("lexer::multi_char_operators", crate="prqlc_parser")
+    for n in walk(mo["body"]):
+        if n.get("k") == "call" and last_seg(show(n["f"])) == "just" and n["a"] and isinstance(lit_val(n["a"][0]), str):
+            starts.add(lit_val(n["a"][0])[:1])
+    not_ending = sorted(c for c in starts - accepted if not (c.isalnum() or c == "_"))
+    rep.check(len(starts) >= 15 and not not_ending, "accepts-token-starts",
+              f"end_expr does not accept {''.join(not_ending)!r}: a keyword or `true`/`false`/`null` directly followed by one of these operator characters lexes as an identifier "
+              "(`true+1` -> Ident(\"true\")), while its own slice `true` lexes as a literal", file=f["file"], line=f["l"], fn=f["path"])
     # users of end_expr use then_ignore (so the look-ahead text is not part of the token)
     n_users = 0
     for g in syn.fns_in_file(LEX):
